@@ -54,6 +54,9 @@ def evaluate(case):
 
     res = Res()
     m, steps = case["markup"], case["steps"]
+    for w in case.get("warmup", []):  # documents processed earlier in the same process
+        call(get_citations, markup_text=w, clean_steps=list(steps))
+        res.label("after-warmup")
     plain = call(clean_text, m, steps)
     if isinstance(plain, Raised):
         res.label("raised")
@@ -181,9 +184,27 @@ def scenario_markup(draw):
     return {"markup": m, "steps": list(draw(st.sampled_from(mk.STEP_LISTS)))}
 
 
+@st.composite
+def after_other_names(draw):
+    """A document processed after others that cite the same volume/reporter/page under different (or no) names."""
+    names = draw(st.lists(st.sampled_from(["Kalomi", "Rentov", "Zenqua", "Drifel", "Gorhup", "Vaswim", "Miranda", "Arizona"]), min_size=4, max_size=4, unique=True))
+    a, b, c, d = names
+    cite = f"{draw(st.integers(1, 500))} {draw(st.sampled_from(REPS))} {draw(st.integers(1, 900))}"
+    docs = [
+        f"<i>{a}</i> v. <i>{b}</i>, {cite} (1999). Later the <i>{a}</i> court said so; see <em>{b}</em>.",
+        f"See {cite} (1999). The <i>{a}</i> court and the <em>{c}</em> court agreed.",
+        f"{c} v. {d}, {cite}. In <em>{c}</em> and in <i>{a}</i> the rule was stated; <i>{d},</i> too.",
+        f"<p>{a} v. {c}, {cite}.</p> <p>See <i>{b}</i> and <i>{c}</i>.</p>",
+    ]
+    order = draw(st.permutations(docs))
+    k = draw(st.integers(1, 3))
+    return {"markup": order[k], "steps": list(draw(st.sampled_from(mk.STEP_LISTS[:3]))), "warmup": list(order[:k])}
+
+
 def phases(tier):
     n, n2 = (5000, 1500) if tier == "quick" else (200000, 60000)
     return [
         Phase("scenario-markup", "gen", strategy=scenario_markup, n=n),
         Phase("grammar-markup", "gen", strategy=lambda: mk.marked_up(p_wrap=5), n=n2),
+        Phase("after-other-names", "gen", strategy=after_other_names, n=n2),
     ]
